@@ -102,6 +102,11 @@ func (h *Hist) genChains(cur []string) []string {
 		return []string{"0001", "0003", "0021"}
 	case 6:
 		return []string{"0040", "0001"}
+	case 7:
+		if h.mode == "c21" || h.mode == "all" {
+			return []string{"00", "0021"} // a 1-byte network identifier (accepted by ValidateNetworkIdentifier)
+		}
+		return []string{"0001"}
 	default:
 		var cs []string
 		for i := 0; i < 16; i++ {
